@@ -178,12 +178,18 @@ def _run_fs_batch(args):
     events = []
     nsys = 0
     fcases = set()
+    hists = []
+    touches = []
     try:
         infos = []
         for i, sc in enumerate(scenarios):
             inf = run_scenario(sess, sc, first=(i == 0))
             events += inf["events"]
             nsys += len(inf["calls"])
+            if mode == "conc" and len(sc["procs"]) > 1:
+                hists.append(history_of(inf["events"]))
+            if sc.get("allowed"):
+                touches += touch_events(sess, sc, inf["events"])
             infos.append({"calls": [{k: c[k] for k in ("name", "area", "file", "mut", "ret", "count", "p")}
                                     for c in inf["calls"]], "results": inf["results"], "beyond": inf.get("beyond")})
             fcases.add(json.dumps(inf["case"]))
@@ -200,6 +206,31 @@ def _run_fs_batch(args):
                     "accepted": finfo["accepted"] and ainfo["accepted"], "infos": infos,
                     "cases": sorted(sess.cases) + [("fs", c) for c in sorted(fcases)]})
         divs = list(fdivs)
+        if touches:
+            lp = os.path.join(bdir, "touch.ndjson")
+            with open(lp, "w") as f:
+                f.write(json.dumps({"ev": "init"}) + "\n")
+                for t in touches:
+                    f.write(json.dumps(t) + "\n")
+            linfo = T.validate_file(lp, os.path.join(bdir, "tlc"), module="TraceLayout", cfg="TraceLayout.cfg")
+            out["states"] += linfo["states"]
+            out["transitions"] += linfo["transitions"]
+            out["touches"] = len(touches)
+            if not linfo["accepted"]:
+                ev = T.event_at(lp, linfo.get("line", 0)) or {}
+                divs.append({"what": "rule", "rule": "TouchedPathNotDerivedFromHash", "line": linfo.get("line"),
+                             "event": {"rel": ev.get("rel"), "name": ev.get("name")}, "props": ["C15", "C17"],
+                             "touch_trace": lp})
+        if hists:
+            sinfo, bad = validate_serial(hists, sess.u.lens(), os.path.join(bdir, "trace"), os.path.join(bdir, "tlc"))
+            out["states"] += sinfo["states"]
+            out["transitions"] += sinfo["transitions"]
+            out["histories"] = len(hists)
+            for bi in bad:
+                divs.append({"what": "serial", "rule": "NotSerializable", "line": bi + 2,
+                             "event": {"ops": [o["op"] for o in hists[bi]["ops"]],
+                                       "res": [o["res"] for o in hists[bi]["ops"]]},
+                             "props": ["C07"], "serial_trace": sinfo["trace"]})
         if not ainfo["accepted"]:
             from . import verdict as V
             adivs = V.collect_divergences(sess, os.path.join(bdir, "trace"), os.path.join(bdir, "tlc"))
@@ -213,7 +244,8 @@ def _run_fs_batch(args):
             with open(os.path.join(bdir, "scenarios.json"), "w") as f:
                 json.dump({"mode": mode, "resolvable": resolvable, "scenarios": scenarios}, f)
             for d in divs:
-                d["trace"] = finfo["trace"] if d.get("what") == "rule" else path
+                d["trace"] = (finfo["trace"] if d.get("what") == "rule" else
+                              d.get("serial_trace") if d.get("what") == "serial" else path)
                 d["programs"] = os.path.join(bdir, "scenarios.json")
         out["divs"] = divs
     except ToolError as e:
@@ -253,6 +285,8 @@ def run_fs_batches(name, batches, mode, resolvable=True, jobs=8):
         agg["cases"] |= {tuple(c) for c in o["cases"]}
         agg["divs"] += o["divs"]
         agg["infos"] += o["infos"]
+        agg["histories"] = agg.get("histories", 0) + o.get("histories", 0)
+        agg["touches"] = agg.get("touches", 0) + o.get("touches", 0)
     return agg
 
 
@@ -386,4 +420,338 @@ def keyed_op_scenarios(rng, tier, lanes=("S", "Aa", "Ta")):
             out.append({"universe": {"keys": prog["keys"], "blobs": prog["blobs"]}, "warm": warm, "procs": [st],
                         "plan": {"kind": "free"}, "cont": cont, "variant": {"kind": kind, "lane": lane}})
             idx += 1
+    return out
+
+
+# ---------------------------------------------------------------------------------------
+# fault injection (C13)
+# ---------------------------------------------------------------------------------------
+from .fs import EIO, ENOSPC, EACCES, EMFILE
+
+
+def errnos_for(call):
+    n = call["name"]
+    if n in ("openat", "open", "openat2", "creat"):
+        return [EIO, EACCES, EMFILE] + ([ENOSPC] if call["mut"] else [])
+    if n in ("mkdir", "mkdirat"):
+        return [EIO, ENOSPC, EACCES]
+    if n in ("write", "pwrite64", "writev"):
+        return [EIO, ENOSPC]
+    if n in ("read", "pread64", "readv", "getdents64"):
+        return [EIO]
+    if n in ("rename", "renameat", "renameat2", "link", "linkat", "symlink", "symlinkat"):
+        return [EIO, EACCES, ENOSPC]
+    if n in ("unlink", "unlinkat", "rmdir"):
+        return [EIO, EACCES]
+    if n in ("fallocate", "ftruncate"):
+        return [ENOSPC, EIO]
+    if n in ("stat", "lstat", "newfstatat", "statx", "access", "faccessat", "faccessat2", "readlink", "readlinkat"):
+        return [EIO, EACCES]
+    if n in ("copy_file_range", "sendfile"):
+        return [EIO, ENOSPC]
+    return []
+
+
+def fault_op_scenarios(rng, tier, lanes=("S", "Aa", "Ta")):
+    """one scenario per (operation, lane): warm state + the operation as the traced process +
+    a continuation that repeats the same call without fault and looks at the other entries"""
+    out = []
+    idx = 0
+    for lane in lanes:
+        for kind in ("write", "write_hash", "write_streamed_mmap", "write_over", "read", "read_hash", "metadata",
+                     "copy", "copy_hash", "hard_link", "remove", "remove_hash", "list"):
+            prog = {"keys": {}, "blobs": {}, "steps": []}
+            key = G.add_key(prog, "fault-key-%d" % idx)
+            other = G.add_key(prog, "other-%d" % idx)
+            d_old = G._mk_data(prog, rng, 19)
+            d_new = G._mk_data(prog, rng, 700)
+            d_oth = G._mk_data(prog, rng, 5)
+            warm = [{"op": "write", "lane": "S", "key": other, "data": d_oth, "algo": "sha256"}]
+            sri_old = [{"a": "sha256", "d": d_old}]
+            need_old = kind in ("write_over", "read", "read_hash", "metadata", "copy", "copy_hash", "hard_link",
+                                "remove", "remove_hash", "list")
+            if need_old:
+                warm.append({"op": "write", "lane": "S", "key": key, "data": d_old, "algo": "sha256"})
+            x = "dest%d" % idx
+            if kind in ("write", "write_over"):
+                st = {"op": "write", "lane": lane, "key": key, "data": d_new, "algo": "sha256", "how": "oneshot"}
+            elif kind == "write_hash":
+                st = {"op": "write", "lane": lane, "data": d_new, "algo": "sha256", "how": "oneshot"}
+            elif kind == "write_streamed_mmap":
+                st = {"op": "write", "lane": lane, "key": key, "data": d_new, "algo": "sha256", "how": "streamed",
+                      "chunks": [(0, 300), (300, 700)], "size": 700}
+            elif kind == "read":
+                st = {"op": "read", "lane": lane, "key": key}
+            elif kind == "read_hash":
+                st = {"op": "read", "lane": lane, "sri": sri_old}
+            elif kind == "metadata":
+                st = {"op": "metadata", "lane": lane, "key": key}
+            elif kind == "copy":
+                st = {"op": "extract", "lane": lane, "kind": "copy", "checked": True, "key": key, "to": x}
+            elif kind == "copy_hash":
+                st = {"op": "extract", "lane": lane, "kind": "copy", "checked": True, "sri": sri_old, "to": x}
+            elif kind == "hard_link":
+                st = {"op": "extract", "lane": lane, "kind": "hard_link", "checked": True, "key": key, "to": x}
+            elif kind == "remove":
+                st = {"op": "remove", "lane": lane, "key": key}
+            elif kind == "remove_hash":
+                st = {"op": "remove_hash", "lane": lane, "sri": sri_old}
+            else:
+                st = {"op": "list", "lane": lane}
+            # once the fault is gone the same call succeeds
+            retry = {k: v for k, v in st.items() if k not in ("how", "chunks", "size")}
+            if kind == "write_streamed_mmap":
+                retry = {"op": "write", "lane": lane, "key": key, "data": d_new, "algo": "sha256"}
+            if st["op"] == "extract":
+                retry["to"] = x + "r"
+            cont = [retry,
+                    {"op": "metadata", "lane": "S", "key": other}, {"op": "read", "lane": "Aa", "key": other},
+                    {"op": "metadata", "lane": "S", "key": key}, {"op": "list", "lane": "S"}]
+            out.append({"universe": {"keys": prog["keys"], "blobs": prog["blobs"]}, "warm": warm, "procs": [st],
+                        "plan": {"kind": "free"}, "cont": cont, "variant": {"kind": kind, "lane": lane},
+                        "resolvable": kind != "remove_hash"})
+            idx += 1
+    return out
+
+
+def fault_scenarios(sc, calls, rng, pairs=False):
+    out = []
+    for k, c in enumerate(calls):
+        for e in errnos_for(c):
+            out.append(with_plan(sc, {"kind": "fault", "at": k, "errno": e}))
+        if c["name"] in ("write", "pwrite64") and c["count"] > 1:
+            out.append(with_plan(sc, {"kind": "short", "at": k, "n": max(1, c["count"] // 2), "then": ENOSPC}))
+            out.append(with_plan(sc, {"kind": "short", "at": k, "n": 1, "then": EIO}))
+    if pairs:
+        for k, c in enumerate(calls):
+            es = errnos_for(c)
+            if not es:
+                continue
+            for j in range(0, min(6, len(calls) - k)):
+                out.append(with_plan(sc, {"kind": "fault", "at": k, "errno": rng.choice(es),
+                                          "second": {"after": j, "errno": rng.choice([EIO, EACCES, ENOSPC])}}))
+    return out
+
+
+# ---------------------------------------------------------------------------------------
+# concurrency (C07): schedules and the serialisability oracle
+# ---------------------------------------------------------------------------------------
+
+def history_of(events):
+    """one concurrent run -> {init, ops:[{op,res}], final} for SerialAPI.tla"""
+    init = next(e["snap"] for e in events if e["ev"] == "begin")
+    final = next(e["snap"] for e in reversed(events) if e["ev"] == "end")
+    ops = {}
+    for e in events:
+        if e["ev"] == "spawn":
+            ops[e["p"]] = {"op": dict(e["op"]), "res": None}
+        elif e["ev"] == "result":
+            ops[e["p"]]["res"] = e["res"]
+    # clock values: read off the records the run appended (in append order per bucket)
+    def lines(snap, k):
+        for b in snap["buckets"]:
+            if b["key"] == k:
+                return b["lines"]
+        return []
+    used = set()
+    for p in sorted(ops):
+        o = ops[p]["op"]
+        if o["op"] in ("write", "remove", "index_insert", "link_to") and "key" in o:
+            k = o["key"]
+            new = lines(final, k)[len(lines(init, k)):]
+            tm = "0"
+            for idx, ln in enumerate(new):
+                if ln["t"] != "rec" or (k, idx) in used:
+                    continue
+                r = ln["r"]
+                want_tomb = o["op"] == "remove"
+                if (r["sri"] == []) != want_tomb:
+                    continue
+                if o["op"] == "write" and r["sri"] != [{"a": o["algo"], "d": o["data"]}]:
+                    continue
+                used.add((k, idx))
+                tm = r["time"]
+                break
+            o["now"] = tm
+            o["now_ok"] = True
+    return {"ev": "hist", "init": init, "ops": [ops[p] for p in sorted(ops)], "final": final}
+
+
+def validate_serial(hists, lens, base, workdir):
+    path = base + ".serial.ndjson"
+    with open(path, "w") as f:
+        f.write(json.dumps({"ev": "init", "lens": lens}) + "\n")
+        for h in hists:
+            f.write(json.dumps(h) + "\n")
+    res = run_tlc("SerialAPI", "SerialAPI.cfg", workdir, env={"TRACE": path}, workers=1, timeout=1800, deque=False)
+    out = res["out"]
+    info = {"states": res["distinct"], "transitions": res["generated"], "trace": path}
+    if '"ACCEPTED"' in out and "Error:" not in out:
+        info["accepted"] = True
+        return info, []
+    m = re.search(r'"REJECTED", (\d+)', out)
+    if not m:
+        raise ToolError("TLC failed on serial trace %s:\n%s" % (path, out[-2500:]))
+    # report every history that cannot be explained: drop the rejected one and go on
+    bad = []
+    rest = list(hists)
+    offset = 0
+    line = int(m.group(1))
+    guard = 0
+    while True:
+        idx = line - 2
+        bad.append(offset + idx)
+        rest = rest[idx + 1:]
+        offset += idx + 1
+        guard += 1
+        if not rest or guard > 30:
+            break
+        with open(path + ".rest", "w") as f:
+            f.write(json.dumps({"ev": "init", "lens": lens}) + "\n")
+            for h in rest:
+                f.write(json.dumps(h) + "\n")
+        r2 = run_tlc("SerialAPI", "SerialAPI.cfg", workdir, env={"TRACE": path + ".rest"}, workers=1, timeout=1800)
+        m = re.search(r'"REJECTED", (\d+)', r2["out"])
+        if not m:
+            break
+        line = int(m.group(1))
+    info["accepted"] = False
+    return info, bad
+
+
+def conc_ops(rng, tier):
+    """operation instances for concurrent runs over two keys and two data values"""
+    prog = {"keys": {}, "blobs": {}, "steps": []}
+    k1 = G.add_key(prog, "conc-k1-%d" % rng.randrange(10 ** 6))
+    k2 = G.add_key(prog, "conc-k2-%d" % rng.randrange(10 ** 6))
+    d1 = G._mk_data(prog, rng, 13)
+    d2 = G._mk_data(prog, rng, 900)
+    s1 = [{"a": "sha256", "d": d1}]
+    s2 = [{"a": "sha256", "d": d2}]
+    ops = {
+        "w11": {"op": "write", "key": k1, "data": d1, "algo": "sha256", "how": "oneshot"},
+        "w12": {"op": "write", "key": k1, "data": d2, "algo": "sha256", "how": "oneshot"},
+        "w21": {"op": "write", "key": k2, "data": d1, "algo": "sha256", "how": "oneshot"},
+        "w12s": {"op": "write", "key": k1, "data": d2, "algo": "sha256", "how": "streamed",
+                 "chunks": [(0, 400), (400, 900)]},
+        "wh1": {"op": "write", "data": d1, "algo": "sha256", "how": "oneshot"},
+        "r1": {"op": "read", "key": k1}, "r2": {"op": "read", "key": k2},
+        "rh1": {"op": "read", "sri": s1}, "rh2": {"op": "read", "sri": s2},
+        "m1": {"op": "metadata", "key": k1},
+        "x1": {"op": "remove", "key": k1}, "x2": {"op": "remove", "key": k2},
+        "xh1": {"op": "remove_hash", "sri": s1},
+        "e1": {"op": "exists", "sri": s1},
+        "ls": {"op": "list"},
+    }
+    warm_states = {
+        "cold": [],
+        "warm": [{"op": "write", "lane": "S", "key": k1, "data": d1, "algo": "sha256"},
+                 {"op": "write", "lane": "S", "key": k2, "data": d2, "algo": "sha256"}],
+    }
+    return prog, ops, warm_states
+
+
+def conc_scenarios(rng, tier, lanes=("S", "Aa", "Ta")):
+    q = tier == "quick"
+    prog, ops, warm = conc_ops(rng, tier)
+    names = sorted(ops)
+    pairs = [(a, b) for a in names for b in names if a <= b]
+    if q:
+        must = [("w11", "w12"), ("w12", "w12s"), ("w11", "w21"), ("w11", "wh1"), ("w12", "x1"), ("w12", "r1"),
+                ("w12", "m1"), ("w12", "ls"), ("x1", "r1"), ("xh1", "r1"), ("xh1", "w11"), ("w11", "w11"),
+                ("x1", "x1"), ("x1", "ls"), ("rh1", "xh1"), ("e1", "w11"), ("w12s", "ls"), ("w12s", "r1")]
+        extra = rng.sample([p for p in pairs if p not in must], 8)
+        pairs = must + extra
+    out = []
+    for (a, b) in pairs:
+        for wname in (["cold", "warm"] if not q else [rng.choice(["cold", "warm"]), "warm"]):
+            lane_a, lane_b = rng.choice(lanes), rng.choice(lanes)
+            sa = dict(ops[a], lane=lane_a)
+            sb = dict(ops[b], lane=lane_b)
+            out.append({"universe": {"keys": prog["keys"], "blobs": prog["blobs"]}, "warm": warm[wname],
+                        "procs": [sa, sb], "plan": {"kind": "free"}, "cont": [],
+                        "variant": {"pair": [a, b], "warm": wname, "lanes": [lane_a, lane_b]}})
+    return out, (prog, ops, warm)
+
+
+def schedules_for(sc, na, nb, rng, per_i=4, max_i=None):
+    """schedules with few pre-emptions: A runs i calls, B runs j calls, then both alternate"""
+    out = []
+    iset = list(range(0, na + 1))
+    if max_i is not None and len(iset) > max_i:
+        iset = sorted(set(rng.sample(iset, max_i)) | {0, na})
+    for i in iset:
+        js = {0, nb} | {rng.randrange(0, nb + 1) for _ in range(per_i)}
+        for j in sorted(js):
+            out.append(with_plan(sc, {"kind": "schedule", "order": [0] * i + [1] * j}))
+            if rng.random() < 0.3:
+                k = rng.randrange(0, max(1, na - i) + 1)
+                out.append(with_plan(sc, {"kind": "schedule", "order": [0] * i + [1] * j + [0] * k + [1] * nb}))
+    return out
+
+
+# ---------------------------------------------------------------------------------------
+# confinement (C15)
+# ---------------------------------------------------------------------------------------
+
+def confinement_scenarios(rng, tier, lanes=("S", "Aa", "Ta")):
+    q = tier == "quick"
+    keys = list(G.HOSTILE_KEYS)
+    rng.shuffle(keys)
+    keys = keys[:10 if q else len(keys)] + ["".join(chr(rng.randrange(0x20, 0x3000)) for _ in range(8))
+                                            for _ in range(2 if q else 20)]
+    out = []
+    for ki, ks in enumerate(keys):
+        prog = {"keys": {}, "blobs": {}, "steps": []}
+        key = G.add_key(prog, ks)
+        d = G._mk_data(prog, rng, 21)
+        sri = [{"a": "sha256", "d": d}]
+        ops = [("write", {"op": "write", "key": key, "data": d, "algo": "sha256", "how": "oneshot"}, False),
+               ("read", {"op": "read", "key": key}, True),
+               ("metadata", {"op": "metadata", "key": key}, True),
+               ("exists", {"op": "exists", "sri": sri}, True),
+               ("list", {"op": "list"}, True),
+               ("copy", {"op": "extract", "kind": "copy", "checked": True, "key": key, "to": "out%d" % ki}, True),
+               ("hard_link", {"op": "extract", "kind": "hard_link", "checked": True, "key": key, "to": "hl%d" % ki}, True),
+               ("remove", {"op": "remove", "key": key}, True),
+               ("remove_hash", {"op": "remove_hash", "sri": sri}, True),
+               ("remove_fully", {"op": "remove_fully", "key": key}, True),
+               ("read_missing", {"op": "read", "key": key}, False),
+               ("metadata_missing", {"op": "metadata", "key": key}, False),
+               ("list_missing", {"op": "list"}, False)]
+        if q:
+            ops = [ops[0]] + rng.sample(ops[1:], 5)
+        for name, st, needs in ops:
+            lane = rng.choice(lanes)
+            warm = [{"op": "write", "lane": "S", "key": key, "data": d, "algo": "sha256"}] if needs else []
+            out.append({"universe": {"keys": prog["keys"], "blobs": prog["blobs"]}, "warm": warm,
+                        "procs": [dict(st, lane=lane)], "plan": {"kind": "free"}, "cont": [],
+                        "variant": {"key": ks[:40], "op": name, "lane": lane},
+                        "allowed": {"key": ks, "data_hex": d}})
+    return out
+
+
+def touch_events(sess, sc, events):
+    """for every visible call in the index / content area: the path it touched and the paths the
+    operation may touch, computed by the reference from hashlib digests of key and data"""
+    import hashlib
+    from . import refimpl as R
+    b = lambda x: list(x.encode())
+    allowed = []
+    ks = sc["allowed"]["key"]
+    allowed.append([b(x) for x in R.bucket_relpath(ks).split(os.sep)])
+    blob = sess.u.blobs[sc["allowed"]["data_hex"]]
+    for a in ("sha256",):
+        allowed.append([b(x) for x in R.content_relpath(a, R.digest_hex(a, blob.bytes())).split(os.sep)])
+    out = []
+    for e in events:
+        if e["ev"] != "sys":
+            continue
+        for rel, area in ((e.get("rel"), e.get("area")), (e.get("rel1"), e.get("area1"))):
+            if rel and area in ("index", "content"):
+                walk = e["name"] == "getdents64" or (sc["procs"][0]["op"] in ("list", "clear"))
+                if walk:
+                    continue        # a listing walks the whole index by design
+                out.append({"ev": "touch", "path": [b(x) for x in rel.split(os.sep)], "allowed": allowed,
+                            "rel": rel, "name": e["name"]})
     return out
